@@ -3,7 +3,11 @@
 proof:  Properties/C26.v (refinement of the reference LRU map for every operation sequence,
         representation invariant, capacity bound, only-KeyError) and Properties/C26conc.v
         (lock atomicity; single unlocked reads are linearizable; the torn double read witness)
-tie  :  K-rt sequential: extracted Model.LRU.run == real LRUCache on exhaustive small histories
+tie  :  T5 translator: gen/lru_translate.py turns the current source of __getitem__, __setitem__,
+        __delitem__, clear, __contains__, __len__, get, setdefault into terms of Lib/PyLru and the
+        generated file proves  source term = model function  for all states and arguments, plus
+        "every concurrent operation is wrapped in with self._wlock";
+        K-rt sequential: extracted Model.LRU.run == real LRUCache on exhaustive small histories
         + random long ones (results after every operation, incl. copy / pickle round trips);
         K-rt concurrent: a sys.settrace line-level deterministic scheduler drives the real
         LRUCache methods in threads; every explored schedule's results must be linearizable
@@ -110,6 +114,18 @@ def run(ctx):
     ]
     ctx.proof("C26")
     ctx.proof("C26conc")
+    # translator tie: the current source of the LRUCache methods, as a term of Lib/PyLru, is proved
+    # equal to the model for every state and argument; the concurrent operations are lock-wrapped
+    import os, sys
+    sys.path.insert(0, os.path.join(lib.ROOT, "gen"))
+    import lru_translate
+    try:
+        vtext = lru_translate.emit(lib.SRC)
+        ok, out = ctx.coq_obligation("Gen_lru", vtext, n_obligations=9)
+        if ok:
+            ctx.trusted.append("Gen_lru (source = model equations): " + " ".join(out.split()))
+    except lru_translate.Untranslatable as e:
+        ctx.broken.append(f"translator gen/lru_translate.py: LRUCache source left the translatable vocabulary: {e}")
 
     L1 = ctx.size(3, 4)
     L2 = ctx.size(5, 6)
